@@ -46,11 +46,45 @@ def later_edits(sid):
     yield ro_delete(46)
 
 
+def message_view(m):
+    """what the message object reports through its public properties (carried elements by their XML),
+    and the identities of every Element it hands out"""
+    from xml.etree import ElementTree as ET
+    from mosromgr.moselements import MosElement
+    view, handed = {}, set()
+
+    def conv(v):
+        if isinstance(v, MosElement):
+            for e in v.xml.iter():
+                handed.add(id(e))
+            return ('elem', ET.tostring(v.xml, encoding='unicode'), v.id)
+        if isinstance(v, (list, tuple)):
+            return [conv(x) for x in v]
+        if isinstance(v, ET.Element):
+            for e in v.iter():
+                handed.add(id(e))
+            return ('xml', ET.tostring(v, encoding='unicode'))
+        return repr(v)
+    for name in sorted(dir(type(m))):
+        if name.startswith('_') or name in ('dict',) or not isinstance(getattr(type(m), name, None), property):
+            continue
+        try:
+            view[name] = conv(getattr(m, name))
+        except Exception as e:
+            view[name] = 'raises ' + type(e).__name__
+    return view, handed
+
+
+def shares_nodes(m, ro):
+    view, handed = message_view(m)
+    return any(id(e) in handed for e in ro.xml.iter())
+
+
 class Check:
     pid = 'C13'
     rule = ('for each of the 13 payload-carrying classes x 4 running-order layouts: merge the message object into ro1; apply 6 later '
             'edits to ro1 (item delete / insert / replace / roElementAction delete inside the carried story, roMetadataReplace, '
-            'roDelete) checking str(message) after each; merge the same object again into a fresh ro2 and compare with merging a '
+            'roDelete) checking str(message), everything the message reports through its public properties, and that no element it hands out is a node of the running order, after each; merge the same object again into a fresh ro2 and compare with merging a '
             'freshly parsed copy; edit ro2 and check ro1 is untouched; plus the static call-site extraction. distinct by (class, layout, step)')
 
     def matches_known(self, k, v):
@@ -63,10 +97,15 @@ class Check:
         ro1 = RunningOrder.from_string(ro_text)
         m = MosFile.from_string(msg_text)
         before = str(m)
+        view0 = message_view(m)[0]
         steps = 0
         ro1 += m
         if str(m) != before:
             return 'the merge modified the message object', steps
+        if message_view(m)[0] != view0:
+            return 'after the merge the message object reports something else through its accessors', steps
+        if shares_nodes(m, ro1):
+            return 'after the merge an element handed out by the message object is a node of the running order', steps
         for d in later_edits(sid):
             steps += 1
             try:
@@ -75,6 +114,8 @@ class Check:
                 pass
             if str(m) != before:
                 return 'a later %s on the running order changed the message object that had been merged' % d[3].tag, steps
+            if message_view(m)[0] != view0:
+                return 'a later %s on the running order changed what the merged message object reports through its accessors' % d[3].tag, steps
         ro2 = RunningOrder.from_string(ro_text)
         ro2 += m
         ro3 = RunningOrder.from_string(ro_text)
